@@ -114,6 +114,8 @@ func (c *watchCase) line(toks []string) (string, bool) {
 			}
 		case "t": // truncate and rewrite in place
 			os.WriteFile(p, []byte("collision_mode = \"no_repeat\"\n"), 0o666)
+		case "e": // emptied in place
+			os.Truncate(p, 0)
 		case "c": // a new file with content
 			os.WriteFile(p, []byte("collision_mode = \"off\"\n"), 0o666)
 		case "m":
